@@ -179,13 +179,13 @@ def main():
     fired["ct_hits_dropped"] = sum(r.get("drops", 0) for r in okruns)
     steps = sum(r.get("steps", 0) for r in okruns)
     samples = []
-    for r in sorted(okruns, key=lambda r: r["run"]):
+    for r in sorted(okruns, key=lambda r: r.get("run", 0)):
         if len(samples) >= 3: break
         if "story" not in r and prop != "C18": continue
-        samples.append({"run": r["run"], "seed": r["seed"], "steps": r.get("steps"),
+        samples.append({"run": r.get("run"), "seed": r.get("seed"), "steps": r.get("steps"),
                         "first_steps": r.get("story"), "ops": r.get("ops"),
-                        "fired": r.get("fired"), "event_hash": r["hash"],
-                        "replay": "build/asan/sim.bin gen --prop %s --seed %s%s > p.plan && build/asan/sim.bin replay p.plan" % (prop, r["seed"], " --thorough" if tier == "thorough" else "")})
+                        "fired": r.get("fired"), "event_hash": r.get("hash"), "detail": {k: v for k, v in r.items() if k in ("style", "gran", "requests", "recycles", "failures_injected", "peak_live")},
+                        "replay": "build/asan/sim.bin gen --prop %s --seed %s%s > p.plan && build/asan/sim.bin replay p.plan" % (prop, r.get("seed"), " --thorough" if tier == "thorough" else "")})
     astates = set()
     for r in okruns: astates.update(r.get("astates", []))
     ev = {
